@@ -46,7 +46,7 @@ def _slots_snapshot():
 def _settings_case(draw):
     cfg = {}
     if draw(st.booleans()):
-        cfg["max_calc_step_size_feet"] = draw(st.one_of(st.floats(0.1, 7.5), st.sampled_from([0.25, 1.0, 2.0, 5.0])))
+        cfg["max_calc_step_size_feet"] = draw(st.one_of(st.floats(0.1, 7.5), st.sampled_from([0.25, 1.0, 2.0, 5.0]), st.floats(0.01, 0.1)))
     if draw(st.booleans()):
         cfg["cGravityConstant"] = -draw(st.floats(3.0, 60.0))
     if draw(st.booleans()):
